@@ -182,3 +182,28 @@ Proof.
   exists ts. split; [exact Hq|exact (tparse_complete K asg f _ _ Hf)].
 Qed.
 Print Assumptions C01_query_meaning_tparse.
+
+(* ---- the reference meaning (Spec/Ref.v) and its numbering ---- *)
+From Coq Require Import NArith.
+From PS Require Import Spec.Ref Proofs.RefP.
+(* The run compares the query with the reference over the numbers of the distinct reference predicates:
+   the numbered combination under an assignment of the numbers has the value of the combination of
+   predicates under the valuation that reads each predicate's number ... *)
+Theorem C01_ref_numbering : forall ks asg c, den asg (number ks c) = rden (fun k => asg (idx ks k)) c.
+Proof. exact number_den. Qed.
+Print Assumptions C01_ref_numbering.
+(* ... and every valuation of the predicates (one that does not distinguish predicates with equal keys) is
+   the reading of an assignment of the numbers given by keys_of: the comparison under all assignments is a
+   comparison under all valuations of the reference predicates. *)
+Theorem C01_ref_valuations : forall c val d, respects val ->
+  rden val c = den (fun i => val (nth i (keys_of c []) d)) (number (keys_of c []) c).
+Proof. exact ref_valuations. Qed.
+Print Assumptions C01_ref_valuations.
+(* The truth table the run enumerates (rows m < 2^n, bit i of m for predicate number i) is complete: every
+   valuation of the reference predicates is one of its rows. *)
+Theorem C01_ref_table_complete : forall c val, respects val ->
+  let ks := keys_of c [] in
+  exists m, In m (seq 0 (Nat.pow 2 (length ks))) /\
+    rden val c = den (fun a => N.testbit (N.of_nat m) (N.of_nat a)) (number ks c).
+Proof. exact ref_table_complete. Qed.
+Print Assumptions C01_ref_table_complete.
